@@ -443,6 +443,11 @@ type GateCase struct {
 	Codec string `json:"codec"`
 	Size  int    `json:"size"`  // payload size of the message
 	Delta int    `json:"delta"` // MaxMessageSize = len(encoding) + delta; -1000000 = unlimited (0)
+	// Pad: bytes appended to the valid encoding inside the same frame (the gate is about the FRAME, whatever the codec makes of
+	// it); PadKind: space | zero | brace. Garbage: the frame is Size undecodable bytes instead (limit = Size + Delta)
+	Pad     int    `json:"pad,omitempty"`
+	PadKind string `json:"pad_kind,omitempty"`
+	Garbage bool   `json:"garbage,omitempty"`
 }
 
 type oneShot struct{ b []byte }
@@ -455,8 +460,15 @@ func (o *oneShot) TxBytesCounterValue() uint64 { return 0 }
 
 var subGate = ev.Sub[GateCase]{Name: "size-gate", Q: 500, T: 10000,
 	Gen: func(t *rapid.T) GateCase {
-		return GateCase{Codec: rapid.SampledFrom([]string{"proto", "json"}).Draw(t, "codec"), Size: rapid.IntRange(0, 5000).Draw(t, "size"),
+		c := GateCase{Codec: rapid.SampledFrom([]string{"proto", "json"}).Draw(t, "codec"), Size: rapid.IntRange(0, 5000).Draw(t, "size"),
 			Delta: rapid.SampledFrom([]int{-1000000, -2, -1, 0, 1, 2, -50, 50}).Draw(t, "delta")}
+		switch rapid.IntRange(0, 3).Draw(t, "shape") {
+		case 0:
+			c.Pad, c.PadKind = rapid.SampledFrom([]int{1, 3, 60, 5000, 100000}).Draw(t, "pad"), rapid.SampledFrom([]string{"space", "zero", "brace"}).Draw(t, "padkind")
+		case 1:
+			c.Garbage = true
+		}
+		return c
 	},
 	Run: func(c GateCase, k *ev.Case) *ev.Failure {
 		enc := encByName(c.Codec)
@@ -470,6 +482,20 @@ var subGate = ev.Sub[GateCase]{Name: "size-gate", Q: 500, T: 10000,
 		if max < 0 {
 			max = 1
 		}
+		valid := true
+		if c.Garbage {
+			raw, valid = bytes.Repeat([]byte{0xfb, 0x07}, c.Size/2+1), false
+			max = len(raw) + c.Delta
+			if c.Delta == -1000000 {
+				max = 0
+			}
+			if max < 0 {
+				max = 1
+			}
+		} else if c.Pad > 0 {
+			pb := map[string]byte{"space": ' ', "zero": 0, "brace": '}'}[c.PadKind]
+			raw, valid = append(append([]byte(nil), raw...), bytes.Repeat([]byte{pb}, c.Pad)...), false
+		}
 		k.NonTrivial(ev.JSON(c))
 		k.Sample(func() any { return c })
 		tr := encoding.NewTransport(&encoding.TransportConfig{Transport: &oneShot{raw}, Encoding: enc, MaxMessageSize: encoding.Size(max)})
@@ -481,6 +507,13 @@ var subGate = ev.Sub[GateCase]{Name: "size-gate", Q: 500, T: 10000,
 			}
 			if !errors.Is(err, ierrors.ErrMessageTooLarge) {
 				return ev.Failf("C12.3 size-gate", "a %d byte message over MaxMessageSize=%d is rejected with %v, not the too-large error", len(raw), max, err)
+			}
+			return nil
+		}
+		if !valid {
+			// a padded or undecodable frame within the limit: the codec may take or refuse it - but not as "too large"
+			if err != nil && errors.Is(err, ierrors.ErrMessageTooLarge) {
+				return ev.Failf("C12.3 size-gate", "a %d byte frame within MaxMessageSize=%d is rejected as too large", len(raw), max)
 			}
 			return nil
 		}
